@@ -568,3 +568,314 @@ M("c18-rate-default-half", "C18", "statsd/reporter.go",
   "		opts.SampleRate = 1.0", "		opts.SampleRate = 0.5", expect="O3 defaults")
 M("c18-fmt-e", "C18", "statsd/reporter.go",
   """strconv.Itoa(int(opts.HistogramBucketNamePrecision)) + "f",""", """strconv.Itoa(int(opts.HistogramBucketNamePrecision)) + "e",""", expect="O3 defaults")
+
+# ---------------------------------------------------------------- C10 timers / stopwatch / instrument
+M("c10-both-deliveries", "C10", "stats.go",
+  """	if t.cachedTimer != nil {
+		t.cachedTimer.ReportTimer(interval)
+	} else {
+		t.reporter.ReportTimer(t.name, t.tags, interval)
+	}""", """	if t.cachedTimer != nil {
+		t.cachedTimer.ReportTimer(interval)
+	}
+	t.reporter.ReportTimer(t.name, t.tags, interval)""", expect="O1 record")
+M("c10-plain-takes-precedence", "C10", "stats.go",
+  """	if t.cachedTimer != nil {
+		t.cachedTimer.ReportTimer(interval)
+	} else {
+		t.reporter.ReportTimer(t.name, t.tags, interval)
+	}""", """	if t.reporter != nil {
+		t.reporter.ReportTimer(t.name, t.tags, interval)
+	} else {
+		t.cachedTimer.ReportTimer(interval)
+	}""", expect="O1 record")
+M("c10-async-record", "C10", "stats.go",
+  """		t.reporter.ReportTimer(t.name, t.tags, interval)
+	}
+}""", """		go t.reporter.ReportTimer(t.name, t.tags, interval)
+	}
+}""", expect="O1 record")
+M("c10-buffer-and-report-in-pass", "C10", "scope.go",
+  """	// we do nothing for timers here because timers report directly to ths StatsReporter without buffering
+
+	s.hm.RLock()
+	for name, histogram := range s.histograms {""", """	s.tm.RLock()
+	for _, t := range s.timers {
+		for _, v := range t.snapshot() {
+			r.ReportTimer(t.name, t.tags, v)
+		}
+	}
+	s.tm.RUnlock()
+
+	s.hm.RLock()
+	for name, histogram := range s.histograms {""", expect="O2")
+M("c10-abs-duration", "C10", "stats.go",
+  """func (t *timer) RecordStopwatch(stopwatchStart time.Time) {
+	d := globalNow().Sub(stopwatchStart)""", """func (t *timer) RecordStopwatch(stopwatchStart time.Time) {
+	d := stopwatchStart.Sub(globalNow())""", expect="O3 stopwatch")
+M("c10-stop-twice", "C10", "types.go",
+  "	sw.recorder.RecordStopwatch(sw.start)\n", "	sw.recorder.RecordStopwatch(sw.start)\n	sw.recorder.RecordStopwatch(sw.start)\n", expect="O3 stopwatch")
+M("c10-start-zero-time", "C10", "stats.go",
+  """func (h *histogram) Start() Stopwatch {
+	return NewStopwatch(globalNow(), h)""", """func (h *histogram) Start() Stopwatch {
+	return NewStopwatch(time.Time{}, h)""", expect="O3 stopwatch")
+M("c10-exec-twice-on-error", "C10", "instrument/call.go",
+  """	err := f()
+	sw.Stop()
+""", """	err := f()
+	if err != nil {
+		err = f()
+	}
+	sw.Stop()
+""", expect="O4 exec")
+M("c10-exec-success-before-test", "C10", "instrument/call.go",
+  """	if err != nil {
+		c.err.Inc(1)
+		return err
+	}
+
+	c.success.Inc(1)
+	return nil""", """	c.success.Inc(1)
+	if err != nil {
+		c.err.Inc(1)
+		return err
+	}
+	return nil""", expect="O4 exec")
+M("c10-exec-swallow-error", "C10", "instrument/call.go",
+  """		c.err.Inc(1)
+		return err""", """		c.err.Inc(1)
+		return nil""", expect="O4 exec")
+M("c10-exec-stop-only-on-success", "C10", "instrument/call.go",
+  """	err := f()
+	sw.Stop()
+
+	if err != nil {
+		c.err.Inc(1)
+		return err
+	}
+""", """	err := f()
+
+	if err != nil {
+		c.err.Inc(1)
+		return err
+	}
+	sw.Stop()
+""", expect="O4 exec")
+M("c10-newcall-swapped-tags", "C10", "instrument/call.go",
+  "		err:     scope.Tagged(map[string]string{resultType: resultTypeError}).Counter(name),", "		err:     scope.Tagged(map[string]string{resultType: resultTypeSuccess}).Counter(name),", expect="O4 newcall")
+B("c10-benign-exec-err-first", "C10", "instrument/call.go",
+  """	if err != nil {
+		c.err.Inc(1)
+		return err
+	}
+
+	c.success.Inc(1)
+	return nil""", """	if err == nil {
+		c.success.Inc(1)
+	} else {
+		c.err.Inc(1)
+	}
+	return err""")
+B("c10-benign-record-early-return", "C10", "stats.go",
+  """	if t.cachedTimer != nil {
+		t.cachedTimer.ReportTimer(interval)
+	} else {
+		t.reporter.ReportTimer(t.name, t.tags, interval)
+	}""", """	if t.cachedTimer == nil {
+		t.reporter.ReportTimer(t.name, t.tags, interval)
+		return
+	}
+	t.cachedTimer.ReportTimer(interval)""")
+
+# ---------------------------------------------------------------- C14 M3 hand-shake
+M("c14-inc-after-done-check", "C14", "m3/reporter.go",
+  """	r.pending.Inc()
+	defer r.pending.Dec()
+
+	if r.done.Load() {
+		return
+	}
+
+	m.Timestamp = r.now.Load()""", """	if r.done.Load() {
+		return
+	}
+	r.pending.Inc()
+	defer r.pending.Dec()
+
+	m.Timestamp = r.now.Load()""", expect="O1 enter-protocol")
+M("c14-no-dec-on-early-return", "C14", "m3/reporter.go",
+  """	r.pending.Inc()
+	defer r.pending.Dec()
+
+	if r.done.Load() {
+		return
+	}
+
+	r.reportInternalMetrics()
+	r.metCh <- sizedMetric{}""", """	r.pending.Inc()
+
+	if r.done.Load() {
+		return
+	}
+
+	r.reportInternalMetrics()
+	r.metCh <- sizedMetric{}
+	r.pending.Dec()""", expect="O1 enter-protocol")
+M("c14-flush-no-done-check", "C14", "m3/reporter.go",
+  """	if r.done.Load() {
+		return
+	}
+
+	r.reportInternalMetrics()""", """	r.reportInternalMetrics()""", expect="O1 enter-protocol")
+M("c14-close-before-drain", "C14", "m3/reporter.go",
+  """	// Wait for any pending reports to complete.
+	for r.pending.Load() > 0 {
+		runtime.Gosched()
+	}
+
+	close(r.donech)
+	close(r.metCh)""", """	close(r.donech)
+	close(r.metCh)
+	// Wait for any pending reports to complete.
+	for r.pending.Load() > 0 {
+		runtime.Gosched()
+	}
+""", expect="O2 close-protocol")
+M("c14-done-plain-store", "C14", "m3/reporter.go",
+  """	if !r.done.CAS(false, true) {
+		return errAlreadyClosed
+	}
+""", """	if r.done.Load() {
+		return errAlreadyClosed
+	}
+	r.done.Store(true)
+""", expect="O2 close-protocol")
+M("c14-second-close-nil", "C14", "m3/reporter.go",
+  """	if !r.done.CAS(false, true) {
+		return errAlreadyClosed
+	}
+""", """	if !r.done.CAS(false, true) {
+		return nil
+	}
+""", expect="O2 close-protocol")
+M("c14-no-wg-wait", "C14", "m3/reporter.go",
+  """	close(r.metCh)
+	r.wg.Wait()
+""", """	close(r.metCh)
+""", expect="O2 close-protocol")
+M("c14-no-wg-add", "C14", "m3/reporter.go",
+  """	r.wg.Add(1)
+	go func() {
+		defer r.wg.Done()
+		r.timeLoop()
+	}()""", """	go func() {
+		r.timeLoop()
+	}()""", expect="O3 goroutines")
+M("c14-timeloop-ignores-donech", "C14", "m3/reporter.go",
+  """		select {
+		case <-t.C:
+		case <-r.donech:
+			return
+		}""", """		<-t.C""", expect="O3 goroutines")
+M("c14-revert-closure-copy", "C14", "m3/reporter.go",
+  """		m := m // n.b. copy: one handle may be used from several goroutines.
+""", "", count=2, expect="O4 reentrant-handles")
+M("c14-search-unguarded", "C14", "m3/reporter.go",
+  """	if idx == n {
+		return noopMetric{}
+	}
+
+	var (
+		b        = h.cachedValueBuckets[idx]""", """	var (
+		b        = h.cachedValueBuckets[idx]""", expect="O5 index-guard")
+B("c14-benign-enter-helper-order", "C14", "m3/reporter.go",
+  """	if r.done.Load() {
+		return
+	}
+
+	r.reportInternalMetrics()""", """	if closed := r.done.Load(); closed {
+		return
+	}
+
+	r.reportInternalMetrics()""")
+B("c14-benign-drain-eq", "C14", "m3/reporter.go",
+  """	for r.pending.Load() > 0 {
+		runtime.Gosched()
+	}
+""", """	for r.pending.Load() != 0 {
+		runtime.Gosched()
+	}
+""")
+
+# ---------------------------------------------------------------- C13 M3 delivery
+M("c13-nonblocking-enqueue", "C13", "m3/reporter.go",
+  """	select {
+	case r.metCh <- sm:
+	case <-r.donech:
+	}
+}""", """	select {
+	case r.metCh <- sm:
+	default:
+	}
+}""", expect="O1 enqueue-once")
+M("c13-timestamp-after-copy", "C13", "m3/reporter.go",
+  """	m.Timestamp = r.now.Load()
+
+	sm := sizedMetric{""", """	sm := sizedMetric{""", expect="O1 enqueue-once")
+M("c13-enqueue-twice", "C13", "m3/reporter.go",
+  """	select {
+	case r.metCh <- sm:
+	case <-r.donech:
+	}
+}""", """	select {
+	case r.metCh <- sm:
+	case <-r.donech:
+	}
+	if size > 1<<20 {
+		r.metCh <- sm
+	}
+}""", expect="O1 enqueue-once")
+M("c13-gauge-into-count", "C13", "m3/reporter.go",
+  "	c.metric.Value.Gauge = value", "	c.metric.Value.Count = int64(value)", expect="O1 handle-methods")
+M("c13-timer-not-written", "C13", "m3/reporter.go",
+  "	c.metric.Value.Timer = int64(interval)\n", "", expect="O1 handle-methods")
+M("c13-continue-after-flush", "C13", "m3/reporter.go",
+  """				borrowedTags = borrowedTags[:0]
+			}
+		}
+""", """				borrowedTags = borrowedTags[:0]
+			}
+			continue
+		}
+""", expect="batching")
+M("c13-no-final-flush", "C13", "m3/reporter.go",
+  """	// Final flush
+	r.flush(mets)
+""", "", expect="batching")
+M("c13-flush-returns-batch", "C13", "m3/reporter.go",
+  """		mets[i].Tags = nil
+	}
+	return mets[:0]""", """		mets[i].Tags = nil
+	}
+	return mets""", expect="batching")
+M("c13-flush-drops-first", "C13", "m3/reporter.go",
+  """		Metrics:    mets,
+		CommonTags: r.commonTags,""", """		Metrics:    mets[1:],
+		CommonTags: r.commonTags,""", expect="batching")
+M("c13-no-common-tags", "C13", "m3/reporter.go",
+  """		Metrics:    mets,
+		CommonTags: r.commonTags,""", """		Metrics:    mets,""", expect="batching")
+M("c13-revert-tagcache-fix", "C13", "m3/reporter.go",
+  """	if ok && tagsEqual(cached, tags) {
+		return cached
+	}
+""", """	if ok {
+		return cached
+	}
+""", expect="O4 cache-hit-equality")
+M("c13-tagsequal-no-value", "C13", "m3/reporter.go",
+  "		if v, ok := tags[tag.Name]; !ok || v != tag.Value {", "		if _, ok := tags[tag.Name]; !ok {", expect="O4 cache-hit-equality")
+M("c13-revert-now-init", "C13", "m3/reporter.go",
+  "	r.now.Store(time.Now().UnixNano())\n\n	internalTags", "	internalTags", expect="O5 clock-init")
+M("c13-close-no-wait", "C13", "m3/reporter.go",
+  "	close(r.metCh)\n	r.wg.Wait()\n", "	close(r.metCh)\n	go r.wg.Wait()\n", expect="O3 close-drains")
